@@ -220,7 +220,17 @@ func genC14(g *G) {
 		}
 		emit(w, start, target, "F1-witness")
 	}
-	if g.Thorough() {
+	{
+		// shrinking to the empty target from more than 5 channels (removal votes are limited to 5 per round)
+		w := newWorld(g)
+		w.hasPred = false
+		start := map[int]J{}
+		for id := 1; id <= 12; id++ {
+			start[id] = w.smallDef(id, 1)
+		}
+		emit(w, start, map[int]J{}, "to-empty")
+	}
+	{
 		// at the channel cap: 2000 channels, replace 7 and swap 6 for new ids
 		w := newWorld(g)
 		w.hasPred = false
@@ -292,4 +302,58 @@ func monC14(op J, res any) (viol []Violation, nontrivial bool) {
 		}
 	}
 	return
+}
+
+// votes of a correct node for arbitrary (previous outcome, expected definitions) pairs, incl. expected
+// sets that fail verification (no votes) and previous outcomes that fail it (refusal)
+func init() {
+	RegGen("C14", "plus llo.observe ops: the votes of the real Observation() for random previous/expected definition sets (missing, differing and equal definitions, more than 5 of each, invalid expected sets, invalid previous sets)", func(g *G) {
+		for i := 0; i < g.N(300, 4000); i++ {
+			w := newWorld(g)
+			prev := map[int]J{}
+			exp := map[int]J{}
+			for k := g.R.Intn(14); k > 0; k-- {
+				id := 1 + g.R.Intn(20)
+				d := w.smallDef(1+g.R.Intn(30), 1+g.R.Intn(3))
+				prev[id] = d
+				switch g.R.Intn(3) {
+				case 0:
+					exp[id] = d
+				case 1:
+					exp[id] = w.smallDef(1+g.R.Intn(30), 1+g.R.Intn(3))
+				}
+			}
+			for k := g.R.Intn(10); k > 0; k-- {
+				exp[30+g.R.Intn(20)] = w.smallDef(1+g.R.Intn(30), 1+g.R.Intn(3))
+			}
+			bad := []any{}
+			switch g.R.Intn(8) {
+			case 0: // an expected definition without streams: the whole expected set is invalid => no votes
+				exp[99] = J{"format": "2", "streams": []any{}, "opts": ""}
+			case 1: // zero aggregator in the previous outcome => refusal
+				prev[98] = J{"format": "2", "streams": []any{J{"sid": "1", "agg": "0"}}, "opts": ""}
+			case 2: // a codec rejects the opts of an expected definition
+				exp[97] = J{"format": "2", "streams": []any{J{"sid": "1", "agg": "1"}}, "opts": "bad0"}
+				bad = append(bad, "bad0")
+			}
+			mk := func(m map[int]J) []any {
+				ids := make([]int, 0, len(m))
+				for id := range m {
+					ids = append(ids, id)
+				}
+				sortInts(ids)
+				out := make([]any, len(ids))
+				for i, id := range ids {
+					out[i] = J{"id": S(id), "def": m[id]}
+				}
+				return out
+			}
+			stage := "production"
+			if g.R.Intn(10) == 0 {
+				stage = "retired"
+			}
+			prevO := J{"stage": stage, "ts": S(w.now), "defs": mk(prev), "va": []any{}, "aggs": []any{}}
+			g.Emit(J{"op": "llo.observe", "prev": prevO, "expected": mk(exp), "badOpts": bad}, "observe")
+		}
+	})
 }
